@@ -121,6 +121,19 @@ fn cram_container_ends(b: &[u8]) -> Option<Vec<usize>> {
     Some(ends)
 }
 
+/// raw CRAM stream: (offset, header length, body length, landmarks) of every container after the file definition (independent walk)
+pub(crate) fn cram_containers(b: &[u8]) -> Option<Vec<(usize, usize, usize, Vec<usize>)>> {
+    let mut out = Vec::new(); let mut p = 26;
+    while p < b.len() {
+        let start = p;
+        let len = usize::try_from(i32::from_le_bytes(b.get(p..p + 4)?.try_into().ok()?)).ok()?; p += 4;
+        itf8(b, &mut p)?; itf8(b, &mut p)?; itf8(b, &mut p)?; itf8(b, &mut p)?; ltf8(b, &mut p)?; ltf8(b, &mut p)?; itf8(b, &mut p)?;
+        let n = itf8_val(b, &mut p)?; let mut lm = Vec::new(); for _ in 0..n { lm.push(usize::try_from(itf8_val(b, &mut p)?).ok()?); }
+        p += 4; let hl = p - start; p += len; if p > b.len() { return None; }
+        out.push((start, hl, len, lm));
+    }
+    Some(out)
+}
 /// raw BAM stream: offsets right after the header and after each record (walk of the length fields, independent of the library)
 fn bam_marks(b: &[u8]) -> Option<Vec<usize>> {
     let u = |p: usize| -> Option<usize> { Some(u32::from_le_bytes(b.get(p..p + 4)?.try_into().ok()?) as usize) };
